@@ -103,7 +103,11 @@ func checkString(s string) {
 var alphabet = []byte{'a', 'z', 0xC3, 0xA9, 0xE2, 0x82, 0xAC, 0xF0, 0x9F, 0xFF}
 
 // boundary bytes of the UTF-8 encoding: every one of them appears at every position of short strings
-var boundary = []byte{0x00, 0x7F, 0x80, 0x81, 0xBF, 0xC0, 0xC1, 0xC2, 0xDF, 0xE0, 0xED, 0xEF, 0xF0, 0xF4, 0xF5, 0xFE, 0xFF, 0xA0, 0x90, 0x8F, 0x9F}
+var boundary = []byte{0x00, 0x7F, 0x80, 0x81, 0xBF, 0xC0, 0xC1, 0xC2, 0xDF, 0xE0, 0xED, 0xEF, 0xF0, 0xF4, 0xF5, 0xFE, 0xFF, 0xA0, 0x90, 0x8F, 0x9F, 0xBD, 0xBE}
+
+// valid runes at the edges of the encoding classes, incl. U+FFFD itself (a VALID three-byte rune that decodes to
+// the very value used for errors), the surrogate neighbours and the largest rune
+var edgeRunes = []string{"\u0000", "\u007f", "\u0080", "\u07ff", "\u0800", "\ud7ff", "\ue000", "\ufffd", "\ufffe", "\uffff", "\U00010000", "\U0010ffff"}
 
 func boundaryStrings() {
 	// all strings of length <= 2 over ALL 256 byte values
@@ -112,6 +116,20 @@ func boundaryStrings() {
 		for b := 0; b < 256; b++ {
 			checkString(string([]byte{byte(a), byte(b)}))
 			res.Count("strings_all_bytes_len2", 1)
+		}
+	}
+	// valid edge runes: alone, between ASCII, pairwise concatenated, followed by every boundary byte
+	for _, r := range edgeRunes {
+		checkString(r)
+		checkString("a" + r + "b")
+		for _, q := range edgeRunes {
+			checkString(r + q)
+			checkString("x" + r + q + r)
+			res.Count("strings_edge_runes", 2)
+		}
+		for _, b := range boundary {
+			checkString(r + string([]byte{b}))
+			checkString(string([]byte{b}) + r + string([]byte{b}))
 		}
 	}
 	// all strings of length 3 and 4 over the boundary bytes, embedded between ASCII
@@ -923,6 +941,42 @@ func checkChans(rng *rand.Rand, n int) {
 			}()
 			return ch
 		}, vals)
+	}
+	// the loop body receives from the SAME channel as well (a second reader): the iterator must not have taken
+	// more than the value it delivered
+	for n := 2; n <= 7; n++ {
+		id := fmt.Sprintf("chan:body-receives-too:%d", n)
+		if !only(id) {
+			continue
+		}
+		res.Eval(1)
+		res.DistinctKey(id)
+		mk := func() chan int {
+			ch := make(chan int, n)
+			for i := 1; i <= n; i++ {
+				ch <- i
+			}
+			close(ch)
+			return ch
+		}
+		var want, got []string
+		nc := mk()
+		for v := range nc {
+			w, ok := <-nc
+			want = append(want, fmt.Sprint(v, w, ok, len(nc)))
+		}
+		p := safe(func() {
+			ic := mk()
+			it := seq.NewChanIter[int](ic)
+			for it.MoveNext() {
+				v := it.Current().Key
+				w, ok := <-ic
+				got = append(got, fmt.Sprint(v, w, ok, len(ic)))
+			}
+		})
+		if p != "" || !reflect.DeepEqual(want, got) {
+			res.Violate(id, "chan-second-reader", fmt.Sprintf("%s: (value, value received by the body, ok, len(ch)) per iteration: native %v iterator %v panic=%q", id, want, got, p), map[string]any{"probe": "itermodel", "only": id})
+		}
 	}
 	// zero values of a concrete type must not end the loop
 	if id := "chan:int-zeros"; only(id) {
